@@ -271,7 +271,7 @@ fn scheme_outcome(r: std::thread::Result<Result<Scheme, serde_json::Error>>) -> 
 }
 
 pub fn gen_scheme_event(r: &mut StdRng, id: u64) -> Value {
-    let pool = ["a", "a.b", "a.b.c", "x_1", "http.request.uri", "0", "A", "\u{fc}ber", "k\u{4e16}", "q\"uote", "back\\slash", "tab\there", "sp ace"];
+    let pool = ["", "a", "a.b", "a.b.c", "x_1", "http.request.uri", "0", "A", "\u{fc}ber", "k\u{4e16}", "q\"uote", "back\\slash", "tab\there", "sp ace"];
     let n = match r.random_range(0..6) {
         0 => 0,
         1 => 1,
